@@ -13,6 +13,9 @@
 -/
 import LtVerif.Proofs.Hpack
 import LtVerif.Proofs.H2Headers
+import LtVerif.Proofs.HpackWeak
+import LtVerif.Proofs.HpackHints
+import LtVerif.Proofs.HpackGlue
 namespace LtVerif.C07
 open LtVerif B Hpack H2Headers
 
@@ -92,12 +95,29 @@ example : Table.init.WF := Table.init_WF
 example : HeaderOk 65535 (ofString ":authority", ofString "www.example.com") :=
   ⟨by decide, by decide⟩
 
-/-- Whole connection: over an arbitrarily long history of header blocks —
-    served ones and ones lighttpd only decodes and discards (refused streams,
-    trailers of forgotten streams, streams after a graceful GOAWAY) — mixed
-    with renegotiations of SETTINGS_HEADER_TABLE_SIZE, every served block
-    decodes to exactly the list that was encoded, the connection stays alive,
-    and at the end the decoder's dynamic table equals the encoder's. -/
+/-- One block, NO assumption on the header list (names and values of any
+    length, empty names, any choices): the decode loop either reports an error
+    or returns exactly the encoded list and ends with the encoder's table. It
+    never returns a different list ("oversized ⇒ error, never silently
+    different": a field that does not fit lighttpd's buffer is an error). -/
+theorem c07_block_error_or_exact (cap : Nat) (d : Dec) (cs : List Choice) (hs : List Header)
+    (hwf : d.tbl.WF) :
+    let r := decodeBlock cap d (encodeBlock d.tbl cs hs).1
+    r.err = none → r.fields.map Field.header = hs ∧ r.dec.tbl = (encodeBlock d.tbl cs hs).2 := by
+  intro r herr
+  obtain ⟨hm, ht, _⟩ := decodeBlock_encodeBlock_weak cap d cs hs hwf herr
+  exact ⟨hm, ht⟩
+
+/-- an oversized field is an error, not a shortened one -/
+example : (decodeBlock 4 Dec.init (encodeBlock Table.init [{ mode := .without }]
+    [(ofString "x-a", ofString "12")]).1).err = some .moreBuf := by decide
+
+/-- Whole connection (1): over an arbitrarily long history of header blocks —
+    served ones and ones lighttpd only decodes and discards — whose fields fit
+    lighttpd's buffer, the connection stays alive, every served block decodes
+    to exactly the list that was encoded, and at the end the decoder's dynamic
+    table equals the encoder's.  (Which blocks are served, discarded or not
+    decoded at all is decided by h2_recv_headers(): `c07_glue_tables_sync`.) -/
 theorem c07_tables_sync (cap : Nat) (hcap : cap ≤ 65535) (items : List ConnItem) (d : Dec)
     (hwf : d.tbl.WF) (hok : ∀ it ∈ items, ItemOk cap it) :
     let r := recvConn cap d (encodeConn d.tbl items).1
@@ -107,24 +127,42 @@ theorem c07_tables_sync (cap : Nat) (hcap : cap ≤ 65535) (items : List ConnIte
   simp only [h]
   exact ⟨trivial, hm, ht⟩
 
+/-- Whole connection (2), NO assumption on the header lists, served or
+    discarded: as long as the connection is alive (no block produced a decoding
+    error — an error in a discarded block kills the connection as well) the
+    served lists are exactly the encoded ones and the tables are equal. -/
+theorem c07_never_silently_different (cap : Nat) (items : List ConnItem) (d : Dec) (hwf : d.tbl.WF) :
+    let r := recvConn cap d (encodeConn d.tbl items).1
+    r.2.2 = true → r.1.map (·.map Field.header) = servedLists items ∧
+      r.2.1.tbl = (encodeConn d.tbl items).2 :=
+  fun h => recvConn_encodeConn_weak cap items d hwf h
+
 /-- non-vacuity: a discarded block inserts an entry that a later served block
     refers to by index (62 = newest dynamic entry) -/
 example :
     (recvConn 65535 Dec.init (encodeConn Table.init
-      [.block [{ mode := .incr }] [(ofString "x-a", ofString "1")] .discard,
-       .settings 100,
-       .block [{ mode := .indexed, idx := 62 }] [(ofString "x-a", ofString "1")] .serve]).1).1
+      [⟨[{ mode := .incr }], [(ofString "x-a", ofString "1")], .discard⟩,
+       ⟨[{ mode := .indexed, idx := 62 }], [(ofString "x-a", ofString "1")], .serve⟩]).1).1
       = [[⟨ofString "x-a", ofString "1", 0, false⟩]] := by decide
 
+/-- the audit's scenario in small: a field too large for the buffer inside a
+    DISCARDED block ends the connection (before the repair of h2_discard_headers_frame
+    the block was skipped and the next served block read a stale table) -/
+example :
+    (recvConn 8 Dec.init (encodeConn Table.init
+      [⟨[{ mode := .incr }], [(ofString "x-e", ofString "0")], .serve⟩,
+       ⟨[{ mode := .without }, { mode := .incr }],
+        [(ofString "x-big", ofString "0123456789"), (ofString "x-a", ofString "1")], .discard⟩,
+       ⟨[{ mode := .indexed, idx := 62 }], [(ofString "x-a", ofString "1")], .serve⟩]).1).2.2
+      = false := by decide
+
 /-- The dynamic table never outgrows the negotiated size, whatever arrives:
-    for ARBITRARY received bytes (valid or not), served or discarded, and any
-    SETTINGS changes, the decoder's table size stays ≤ its current maximum ≤
-    the SETTINGS limit. -/
-theorem c07_table_bound (cap : Nat) (ws : List Wire) (d : Dec) (hwf : d.tbl.WF)
-    (hok : ∀ w ∈ ws, WireOk w) :
+    for ARBITRARY received bytes (valid or not), served or discarded, the
+    decoder's table size stays ≤ its current maximum ≤ the SETTINGS limit. -/
+theorem c07_table_bound (cap : Nat) (ws : List Wire) (d : Dec) (hwf : d.tbl.WF) :
     let d' := (recvConn cap d ws).2.1
     tableSize d'.tbl.dyn ≤ d'.tbl.curMax ∧ d'.tbl.curMax ≤ d'.tbl.maxCap := by
-  have h := recvConn_WF cap ws d hwf hok
+  have h := recvConn_WF cap ws d hwf
   exact ⟨h.size_le, h.cur_le⟩
 
 example : tableSize (evict 60 [(ofString "x-a", ofString "1"), (ofString "x-b", ofString "22")]) = 36 := by
@@ -144,6 +182,10 @@ theorem c07_encoding_unambiguous (cap : Nat) (hcap : cap ≤ 65535) (t : Table) 
   simp only at r₁ r₂
   rw [heq] at r₁
   exact ⟨r₁.2.1.symm.trans r₂.2.1, r₁.2.2.symm.trans r₂.2.2⟩
+
+/-- non-vacuity: two different choice sequences with the same octets -/
+example : (encodeBlock Table.init [{ idx := 0 }] [(ofString "x-a", ofString "1")]).1 =
+    (encodeBlock Table.init [{ idx := 5 }] [(ofString "x-a", ofString "1")]).1 := by decide
 
 /-! "Invalid or oversized blocks produce an error, never a silently different
     list."  The statement planned in DESIGN.md (`c07_invalid_is_error`: every
@@ -205,13 +247,8 @@ example : (decodeBlock 65535 Dec.init (encInt 5 32 4097 ++ [0x82])).err = some .
     than the block holds is BAD_DATA. -/
 theorem c07_truncated_string_is_error (cap : Nat) (huff : Nat) (len : Nat) (avail : Bytes)
     (hh : huff = 0 ∨ huff = 128) (hlen : len < 2 ^ 32) (hshort : avail.length < len) :
-    decStr cap (encInt 7 huff len ++ avail) = .error .badData := by
-  obtain ⟨b, tl, he, _⟩ := encInt_cons 7 huff len (by rcases hh with h | h <;> subst h <;> decide)
-  have hd := decInt_encInt 7 huff len avail (by rcases hh with h | h <;> subst h <;> decide)
-    (by rcases hh with h | h <;> subst h <;> decide) hlen
-  rw [he] at hd ⊢
-  simp only [List.cons_append] at hd ⊢
-  simp [decStr, hd, hshort]
+    decStr cap (encInt 7 huff len ++ avail) = .error .badData :=
+  decStr_truncated cap huff len avail hh hlen hshort
 
 example : decStr 65535 [5, 0x61, 0x62] = .error .badData := by rfl
 
@@ -230,6 +267,120 @@ theorem c07_invalid_is_error_partial (cap : Nat) (d : Dec) :
    fun src s h => c07_huffman_canonical cap src s h⟩
 
 example : Dec.init.tbl.lookup 100 = none ∧ Dec.init.tbl.maxCap < 5000 := by decide
+
+/-- Invalid blocks are errors, anywhere in the block: after ANY valid prefix
+    (any header list, any encoder choices, from any table state) an item of one
+    of the four classes — index outside the tables, table size update above the
+    SETTINGS limit, literal field cut inside its name string, literal field
+    without its value string — yields exactly the fields of the prefix and then
+    BAD_DATA (→ GOAWAY COMPRESSION_ERROR); nothing behind it is looked at. -/
+theorem c07_error_after_valid_prefix (cap : Nat) (hcap : cap ≤ 65535) (d : Dec) (cs : List Choice)
+    (hs : List Header) (hwf : d.tbl.WF) (hok : ∀ h ∈ hs, HeaderOk cap h) :
+    (∀ idx rest, idx < 2 ^ 32 → (encodeBlock d.tbl cs hs).2.lookup idx = none →
+      let r := decodeBlock cap d ((encodeBlock d.tbl cs hs).1 ++ (encInt 7 128 idx ++ rest))
+      r.err = some .badData ∧ r.fields.map Field.header = hs) ∧
+    (∀ n rest, n < 2 ^ 32 → (encodeBlock d.tbl cs hs).2.maxCap < n →
+      let r := decodeBlock cap d ((encodeBlock d.tbl cs hs).1 ++ (encInt 5 32 n ++ rest))
+      r.err = some .badData ∧ r.fields.map Field.header = hs) ∧
+    (∀ flag huff len avail, flag = 0 ∨ flag = 16 ∨ flag = 64 → huff = 0 ∨ huff = 128 → len < 2 ^ 32 →
+      avail.length < len →
+      let r := decodeBlock cap d ((encodeBlock d.tbl cs hs).1 ++ flag.toUInt8 :: (encInt 7 huff len ++ avail))
+      r.err = some .badData ∧ r.fields.map Field.header = hs) ∧
+    (∀ flag n hn, flag = 0 ∨ flag = 16 ∨ flag = 64 → n ≠ [] → n.length < cap →
+      let r := decodeBlock cap d ((encodeBlock d.tbl cs hs).1 ++ flag.toUInt8 :: encStr hn n)
+      r.err = some .badData ∧ r.fields.map Field.header = hs) := by
+  refine ⟨?_, ?_, ?_, ?_⟩
+  · intro idx rest hidx hnone
+    exact decodeBlock_prefix_then_error cap (by omega) d cs hs _ _ hwf hok
+      (by simp [encInt_ne_nil 7 128 idx (by decide)])
+      (fun d' ht => ⟨d', decodeItem_bad_index cap d' idx rest hidx (by rw [ht]; exact hnone)⟩)
+  · intro n rest hn hbig
+    exact decodeBlock_prefix_then_error cap (by omega) d cs hs _ _ hwf hok
+      (by simp [encInt_ne_nil 5 32 n (by decide)])
+      (fun d' ht => ⟨d', decodeItem_oversize_update cap d' n rest hn (by rw [ht]; exact hbig)⟩)
+  · intro flag huff len avail hf hh hlen hshort
+    exact decodeBlock_prefix_then_error cap (by omega) d cs hs _ _ hwf hok (by simp)
+      (fun d' _ => ⟨d', decodeItem_truncated_name cap d' flag huff len avail hf hh hlen hshort⟩)
+  · intro flag n hn hf hnn hlen
+    refine decodeBlock_prefix_then_error cap (by omega) d cs hs _ _ hwf hok (by simp) (fun d' _ => ⟨d', ?_⟩)
+    rcases hf with rfl | rfl | rfl
+    · exact decodeItem_literal_noValue cap d' .without 0 n hn (by decide) (by simp [reprOf]) (by decide)
+        hnn hlen (by omega)
+    · exact decodeItem_literal_noValue cap d' .never 16 n hn (by decide) (by simp [reprOf]) (by decide)
+        hnn hlen (by omega)
+    · exact decodeItem_literal_noValue cap d' .incr 64 n hn (by decide) (by simp [reprOf]) (by decide)
+        hnn hlen (by omega)
+
+/-- non-vacuity: one good field, then index 70 (nothing there) -/
+example : let r := decodeBlock 65535 Dec.init [0x82, 0xc6, 0x84]
+    r.err = some .badData ∧ r.fields.map Field.header = [(ofString ":method", ofString "GET")] := by decide
+
+/-- Hints: with every field the decoder hands h2.c a static-table index hint
+    (`lsx.hpack_index`, also remembered per dynamic entry).  For ARBITRARY input
+    the hint of every delivered field is 0 or the index of a static entry with
+    that very name, and the remembered hints stay right.  (h2.c maps the hint to
+    a header id and http_request_parse_header() then trusts the id without
+    looking at the name again: `c07_hint_selects_id`.) -/
+theorem c07_hint_sound (cap : Nat) (d : Dec) (bs : Bytes) (hd : HintsOk d) :
+    let r := decodeBlock cap d bs
+    HintsOk r.dec ∧ ∀ f ∈ r.fields, HintOk f.hint f.name :=
+  decodeBlock_hint cap d bs hd
+
+example : HintsOk Dec.init := HintsOk.init
+example : (decodeBlock 65535 Dec.init [0x5a, 0x01, 0x78, 0xbe]).fields.map (·.hint) = [26, 26] := by decide
+
+/-- ... and across everything h2_recv_headers() does with a HEADERS sequence -/
+theorem c07_hints_kept_by_glue (cap : Nat) (c : GConn) (id : Nat) (es : Bool) (dep : Option Nat)
+    (block : Bytes) (keep pb : Bool) (h : HintsOk c.dec) :
+    HintsOk (recvHeaders cap c id es dep block keep pb).1.dec :=
+  recvHeaders_hints cap c id es dep block keep pb h
+
+/-- h2.c: `hpctx.id = lshpack_idx_http_header[lsx.hpack_index]` for a non-zero
+    hint.  With a sound hint: a positive id is the id http_header_hkey_get()
+    gives the field name, and the name is lower case already (what
+    http_request_parse_header() skips checking); id 0 (HTTP_HEADER_OTHER) only
+    for names lighttpd has no id for; a negative id is the pseudo-header with
+    that name. -/
+theorem c07_hint_selects_id {hint : Nat} {name : Bytes} (h : HintOk hint name) (h0 : hint ≠ 0) :
+    (0 < Extracted.lshpackIdxHttpHeader.getD hint 0 →
+      hkeyGet name = (Extracted.lshpackIdxHttpHeader.getD hint 0).toNat ∧ lower name = name) ∧
+    (Extracted.lshpackIdxHttpHeader.getD hint 0 = 0 → hkeyGet name = 0) ∧
+    (Extracted.lshpackIdxHttpHeader.getD hint 0 < 0 →
+      pseudoName (Extracted.lshpackIdxHttpHeader.getD hint 0) = name) :=
+  hint_id h h0
+
+/-- Which blocks are decoded: whatever h2_recv_headers() decides about a
+    HEADERS(+CONTINUATION) sequence (new stream, trailers, refused stream, stream
+    after GOAWAY, closed stream, protocol violations ...), exactly one of three
+    things happened: lighttpd has sent an error GOAWAY; or the frame was left
+    unread in the queue and nothing changed; or the block was run through the
+    connection's decoder to its end, without error. -/
+theorem c07_headers_decoded_or_dead (cap : Nat) (c : GConn) (id : Nat) (es : Bool) (dep : Option Nat)
+    (block : Bytes) (keep pb : Bool) :
+    let r := recvHeaders cap c id es dep block keep pb
+    0 < r.1.goaway ∨ (r.2 = .deferred ∧ r.1 = c) ∨
+      (r.1.dec = (decodeBlock cap c.dec block).dec ∧ (decodeBlock cap c.dec block).err = none) :=
+  recvHeaders_spec cap c id es dep block keep pb
+
+/-- Whole connection, with lighttpd's own decisions: the peer encodes header
+    list after header list with its one encoder (ANY lists, choices, stream
+    ids, flags); lighttpd runs h2_recv_headers() on each in order (a frame it
+    leaves in the queue blocks the rest).  As long as lighttpd has not sent an
+    error GOAWAY its table equals the peer's table after the frames consumed. -/
+theorem c07_glue_tables_sync (cap : Nat) (evs : List HEvent) (c : GConn) (hwf : c.dec.tbl.WF) :
+    let r := runPeer cap c c.dec.tbl evs
+    r.1.goaway ≤ 0 → r.1.dec.tbl = r.2 :=
+  fun h => runPeer_sync cap evs c c.dec.tbl rfl hwf h
+
+/-- non-vacuity: a stream refused for concurrency is decoded all the same — the
+    ninth request's new table entry is used by the tenth -/
+example :
+    let ev (id : Nat) (cs : List Choice) : HEvent :=
+      ⟨id, true, none, true, false, cs, [(ofString "x-a", ofString "1")]⟩
+    let r := runPeer 65535 { acked := true } Table.init
+      (((List.range 8).map fun i => ev (2 * i + 1) [{ mode := .without }]) ++
+        [ev 17 [{ mode := .incr }], ev 19 [{ mode := .indexed, idx := 62 }]])
+    r.1.goaway = 0 ∧ r.1.nrefused = 2 ∧ r.1.dec.tbl.dyn = [(ofString "x-a", ofString "1")] := by decide
 
 /-- The header-id maps that tie HPACK to lighttpd's header ids are mutually
     consistent (tables regenerated from h2.c, http_header.c, lshpack.c on every
@@ -310,13 +461,16 @@ example : (decodeBlock 65535 Dec.init [0x45]).err = some .badData := by decide
     lighttpd resizes lshpack's encoder table at once and announces, at the start
     of the next header block, the smallest size since the prior block and then
     the final size (RFC 7541 4.2). A conformant decoder that applies these
-    updates ends with exactly the encoder's table: same entries, same limit. -/
+    updates ends with exactly the encoder's table: same entries, same limit;
+    and it accepts them: no announced size exceeds the value the peer set last. -/
 theorem c07_settings_resize_sync (t0 : Table) (hwf : t0.WF) (vs : List Nat) :
     let g := vs.foldl EncGlue.settings ({ size := t0.curMax } : EncGlue)
     let te := encAfter t0 vs
     let td := g.updates.foldl Table.updateMax t0
-    td.dyn = te.dyn ∧ td.curMax = te.curMax :=
-  settings_resize_sync t0 hwf vs
+    td.dyn = te.dyn ∧ td.curMax = te.curMax ∧
+      (∀ v, vs.getLast? = some v → ∀ u ∈ g.updates, u ≤ v) :=
+  ⟨(settings_resize_sync t0 hwf vs).1, (settings_resize_sync t0 hwf vs).2,
+   fun v hv => updates_le_last t0 hwf vs v hv⟩
 
 example : ([0, 4096].foldl EncGlue.settings ({} : EncGlue)).updates = [0, 4096] := by decide
 example : ([100].foldl EncGlue.settings ({} : EncGlue)).updates = [100] := by decide
@@ -331,6 +485,11 @@ example : (decodeBlock 65535 Dec.init [0x40, 0x02, 0x61, 0x20, 0x01, 0x62]).fiel
 /-! Deviations of lshpack_dec_decode() from RFC 7541 that the model keeps as they
     are (leniency / strictness on unusual input, replayed against the C on
     every run; see the report). -/
+
+/-- ... they decode to the same number: a zero continuation group adds nothing -/
+theorem c07_overlong_group_is_neutral (rest : Bytes) (sh acc : Nat) :
+    decIntTail (0x80 :: rest) sh acc = decIntTail rest (sh + 7) acc := by
+  simp [decIntTail]
 
 /-- over-long (non-minimal) integer encodings are accepted: 7f 80 80 80 00 = 127 -/
 theorem c07_deviation_overlong_int : decInt 7 [0x7f, 0x80, 0x80, 0x80, 0x00] = some (127, []) := by
